@@ -1088,9 +1088,9 @@ func (p pop) token() string {
 }
 
 func streamC14(r *hx.Rng) {
-	n := 250
+	n := 1200
 	if thorough {
-		n = 4000
+		n = 15000
 	}
 	maxbufs := []int{-1, 0, 1, 2, 1000}
 	for i := 0; i < n; i++ {
